@@ -94,7 +94,7 @@ inline void expect (const std::string& what, double got, double want, double tol
   bool bad = (std::isnan (got) != std::isnan (want)) || (std::fabs (got - want) > tol * sc) || (std::isinf (got) != std::isinf (want));
   if (!bad || g.ncex >= 400) return;
   if (g.cex_fn != g.fname) { g.cex_fn = g.fname; g.cex_fn_n = 0; }
-  if (g.cex_fn_n >= 2) return;
+  { static const int cap = getenv ("SYMX_CEX_CAP") ? atoi (getenv ("SYMX_CEX_CAP")) : 2; if (g.cex_fn_n >= cap) return; }
   g.cex_fn_n ++;
   g.ncex ++;
   char b[64];
